@@ -143,6 +143,24 @@ def run(payload):
             fails.append({"id": "adaptive.rkf45_stage_times", "t0": t0, "dt": h, "got": eq.times[:6], "want": (t0 + nodes * h).tolist()})
         elif not np.allclose(state.data - u_start, prim(t_end) - prim(t0), rtol=0, atol=1e-10):
             fails.append({"id": "adaptive.rkf45_cubic_quadrature_not_exact", "t0": t0, "dt": h, "got": (state.data - u_start).tolist(), "want": float(prim(t_end) - prim(t0))})
+    # ---- the remaining gap to t_end is below dt_min (here: one ulp left after a step that spans the interval)
+    from pde.solvers import EulerSolver as _Euler, RungeKuttaSolver as _RK
+    for backend in ["numpy", "numba"]:
+        for cls_ in (_Euler, _RK):
+            t0_, t1_ = 0.6383767776920011, 7.205207168846219  # t0 + (t1 - t0) < t1 in floating point
+            st = ScalarField(grid, [1.0, 2.0, 3.0])
+            cases += 1
+            try:
+                sol = cls_(Lin(-1e-6), backend=backend, adaptive=True, tolerance=1e-3)
+                t_ret = sol.make_stepper(st, 100.0)(st, t0_, t1_)
+            except Exception as e:
+                fails.append({"id": f"adaptive.gap_below_dt_min.{backend}", "error": f"{type(e).__name__}: {e}"})
+                continue
+            if t_ret != t1_:
+                if 0 < t_ret - t1_ <= 1.0000001e-10:
+                    fails.append({"id": "adaptive.overshoots_t_end_by_dt_min_when_the_remaining_gap_is_smaller", "solver": cls_.__name__, "backend": backend, "t_start": t0_, "t_end": t1_, "returned": t_ret, "excess": t_ret - t1_})
+                else:
+                    fails.append({"id": f"adaptive.gap_below_dt_min.{backend}", "solver": cls_.__name__, "t_start": t0_, "t_end": t1_, "returned": t_ret, "excess": t_ret - t1_})
     # ---- iterative solvers on states with several axes whose leading entries vanish (the convergence measure is the
     #      mean square over ALL entries): converged iterations realise the scheme's factor on every entry
     from pde import FieldCollection, VectorField
